@@ -319,11 +319,11 @@ class Engine:
         cur = arr
         depth = 0
         while depth < 16 and z3.is_app(cur) and cur.decl().kind() == z3.Z3_OP_STORE:
-            base, idx, val = cur.arg(0), cur.arg(1), cur.arg(2)
+            base, idx, val = cur.arg(0), z3.simplify(cur.arg(1)), cur.arg(2)
             if z3.eq(idx, ref):
                 return val
             d = z3.simplify(idx != ref)
-            if z3.is_true(d):
+            if z3.is_true(d) or (self.fresh_term(idx) and self.entry_term(ref, 0)) or (self.fresh_term(ref) and self.entry_term(idx, 0)):
                 cur = base
                 depth += 1
                 continue
@@ -445,11 +445,26 @@ class Engine:
             return False
         if z3.is_app(t) and t.decl().name() == "rv" and t.num_args() == 1:
             t = t.arg(0)
+            if z3.is_app(t) and t.decl().kind() == z3.Z3_OP_SEQ_NTH:
+                t = t.arg(0)          # an element of an entry list/dict is an entry reference
+            if z3.is_app(t) and t.decl().kind() == z3.Z3_OP_SELECT and z3.is_app(t.arg(0)) and t.arg(0).decl().kind() == z3.Z3_OP_SELECT:
+                t = t.arg(0)          # $map[d][k]
             if z3.is_app(t) and t.decl().kind() == z3.Z3_OP_SELECT:
                 base, idx = t.arg(0), t.arg(1)
                 return z3.is_const(base) and base.decl().name().startswith("H0!") and self.entry_term(idx, depth + 1)
             return z3.is_const(t) and self.is_entry_symbol(t)
         return z3.is_const(t) and self.is_entry_symbol(t)
+
+    def fresh_term(self, t):
+        """a reference allocated after function entry: <allocation frontier> + k with k >= 1"""
+        t = z3.simplify(t)
+        if z3.is_app(t) and t.decl().kind() == z3.Z3_OP_ADD:
+            ks = [a for a in t.children() if z3.is_int_value(a)]
+            bases = [a for a in t.children() if not z3.is_int_value(a)]
+            if len(bases) == 1 and z3.is_const(bases[0]) and sum(k.as_long() for k in ks) >= 1:
+                nm = bases[0].decl().name()
+                return nm == "H0!$alloc" or nm.startswith("alloc!")
+        return False
 
     def is_entry_symbol(self, t):
         return t.decl().name() in getattr(self, "entry_symbols", ())
@@ -465,7 +480,14 @@ class Engine:
             return SV("list", r, h=(hint[6:-1] if hint.startswith("tuple[") else None), x="tuple")
         if hint == "dict" or hint.startswith("dict["):
             st.assume(clsof(r) == self.ct.id("dict"))
-            return SV("dict", r, h=(hint[5:-1] if hint.startswith("dict[") else None))
+            inner = hint[5:-1] if hint.startswith("dict[") else None
+            if inner and "=" in inner:
+                # typed-dict hint: the listed keys are present (declared shape of the dictionaries stored there)
+                for part in inner.split(";"):
+                    kname = part.split("=", 1)[0]
+                    if kname != "*" and not kname.endswith("?"):
+                        st.assume(z3.Select(self.hget(st, "$dom", r), Val.StrV(z3.StringVal(kname))))
+            return SV("dict", r, h=inner)
         if hint.startswith("role:"):
             return SV("obj", r, h=hint[5:])
         if hint == "Exc":
